@@ -1,6 +1,23 @@
-//! C18 check (see /verif/DESIGN.md section 5 and /verif/mc/README-dev.md).
+//! C18 — the generated Rust binding defines types with the same Candid meaning.
+//!
+//! E1 with a compile step: every program of the scope is type-checked by the real front
+//! end, `emit_bindgen` (default config) is run on it, its `type_defs` become one module of a
+//! generated crate under /verif/work/rsbind together with a generated `check()` that
+//! exports `<Item as CandidType>::ty()` of every emitted item and of every method
+//! argument/result type expression. The crate is built offline (failing modules are mapped
+//! back to their program through rustc's JSON diagnostics, removed, and the rest rebuilt),
+//! executed, and the exported types are compared with the source program by the reference
+//! model's structural equality (R3 `equal`, greatest fixed point).
+mod families;
+mod oracle;
+mod rustlex;
+mod scratch;
+
 use mclib::engine::{catch, finish, install_quiet_panic_hook, Ctx, Report, Tier};
-use serde_json::json;
+use mclib::progs::{self, PActor, PFunc, PLabel, PTy, Prog};
+use serde_json::{json, Value};
+use std::collections::{BTreeMap, BTreeSet};
+use std::sync::Mutex;
 
 fn parse_args() -> (Tier, Option<String>, Vec<String>) {
     let args: Vec<String> = std::env::args().collect();
@@ -28,18 +45,638 @@ fn parse_args() -> (Tier, Option<String>, Vec<String>) {
     (tier, replay, rest)
 }
 
+// ---------------------------------------------------------------------------------------
+// scope
+
+struct Case {
+    family: String,
+    prog: Prog,
+}
+
+fn scope(tier: Tier) -> Vec<Case> {
+    let mut out: Vec<Case> = vec![];
+    let mut seen: BTreeSet<String> = BTreeSet::new();
+    let mut push = |family: &str, p: Prog, out: &mut Vec<Case>| {
+        if seen.insert(p.to_did()) {
+            out.push(Case { family: family.to_string(), prog: p });
+        }
+    };
+    for f in families::families(tier == Tier::Thorough) {
+        push(f.family, f.prog, &mut out);
+    }
+    let plain = progs::plain_programs(100000);
+    let dflt = progs::default_programs(100000);
+    let (np, nd) = match tier {
+        Tier::Quick => (plain.len().div_ceil(8), dflt.len().div_ceil(8)),
+        Tier::Thorough => (plain.len(), dflt.len()),
+    };
+    // quick: every 8th program of U_P (the families above are complete in both tiers)
+    let sp = plain.len().div_ceil(np.max(1)).max(1);
+    for p in plain.into_iter().step_by(sp) {
+        push("U_P-plain", p, &mut out);
+    }
+    let sd = dflt.len().div_ceil(nd.max(1)).max(1);
+    for p in dflt.into_iter().step_by(sd) {
+        push("U_P-default", p, &mut out);
+    }
+    out
+}
+
+// ---------------------------------------------------------------------------------------
+// running the subject
+
+#[derive(Clone, Debug)]
+struct MethodOut {
+    original_name: String,
+    rust_name: String,
+    args: Vec<String>,
+    rets: Vec<String>,
+}
+
+#[derive(Clone, Debug)]
+struct EmitOut {
+    type_defs: String,
+    methods: Vec<MethodOut>,
+    init_args: Option<Vec<String>>,
+}
+
+enum Emit {
+    /// not a type-checked program (outside the property's quantifier)
+    Rejected(String),
+    Panic(String),
+    Ok(EmitOut),
+}
+
+fn run_emit(src: &str) -> Emit {
+    use candid_parser::bindings::rust::{emit_bindgen, Config};
+    use candid_parser::configs::Configs;
+    use candid_parser::syntax::IDLMergedProg;
+    use std::str::FromStr;
+    let front = catch(|| -> Result<_, String> {
+        let ast: candid_parser::IDLProg = src.parse().map_err(|e| format!("parse: {e}"))?;
+        let mut te = candid::TypeEnv::new();
+        let actor = candid_parser::check_prog(&mut te, &ast).map_err(|e| format!("check: {e}"))?;
+        Ok((te, actor, IDLMergedProg::new(ast)))
+    });
+    let (te, actor, merged) = match front {
+        Ok(Ok(x)) => x,
+        Ok(Err(e)) => return Emit::Rejected(e),
+        Err(p) => return Emit::Rejected(format!("front end panicked: {p}")),
+    };
+    let r = catch(|| {
+        let config = Config::new(Configs::from_str("").unwrap());
+        let (out, _unused) = emit_bindgen(&config, &te, &actor, &merged);
+        EmitOut {
+            type_defs: out.type_defs,
+            methods: out
+                .methods
+                .iter()
+                .map(|m| MethodOut {
+                    original_name: m.original_name.clone(),
+                    rust_name: m.name.clone(),
+                    args: m.args.iter().map(|a| a.1.clone()).collect(),
+                    rets: m.rets.clone(),
+                })
+                .collect(),
+            init_args: out.init_args.map(|a| a.into_iter().map(|x| x.1).collect()),
+        }
+    });
+    match r {
+        Ok(o) => Emit::Ok(o),
+        Err(p) => Emit::Panic(p),
+    }
+}
+
+/// Text of module `m<idx>` and its line map.
+fn module_text(idx: usize, e: &EmitOut, items: &[rustlex::Item]) -> scratch::Module {
+    let mut s = String::new();
+    s.push_str("use candid::{self, CandidType, Deserialize, Principal};\n");
+    let defs_lo = 2;
+    s.push_str(&e.type_defs);
+    s.push('\n');
+    let defs_hi = 1 + e.type_defs.matches('\n').count() + 1;
+    s.push_str("pub fn check(out: &mut ::std::vec::Vec<::std::string::String>) {\n");
+    let mut seen = BTreeSet::new();
+    for it in items {
+        if seen.insert(it.name.clone()) {
+            s.push_str(&format!(
+                "    out.push(::std::format!(\"m{idx}\\tI\\t{{}}\\t{{}}\", {:?}, crate::dump::d::<{}>()));\n",
+                it.name, it.name
+            ));
+        }
+    }
+    let meth_lo = s.matches('\n').count() + 1;
+    for (k, m) in e.methods.iter().enumerate() {
+        for (j, a) in m.args.iter().enumerate() {
+            s.push_str(&format!("    out.push(::std::format!(\"m{idx}\\tA\\t{k}\\t{j}\\t{{}}\", crate::dump::d::<{a}>()));\n"));
+        }
+        for (j, a) in m.rets.iter().enumerate() {
+            s.push_str(&format!("    out.push(::std::format!(\"m{idx}\\tR\\t{k}\\t{j}\\t{{}}\", crate::dump::d::<{a}>()));\n"));
+        }
+    }
+    if let Some(init) = &e.init_args {
+        for (j, a) in init.iter().enumerate() {
+            s.push_str(&format!("    out.push(::std::format!(\"m{idx}\\tN\\t0\\t{j}\\t{{}}\", crate::dump::d::<{a}>()));\n"));
+        }
+    }
+    s.push_str("}\n");
+    scratch::Module { idx, text: s, defs_lo, defs_hi, meth_lo }
+}
+
+/// A key that is itself the program: whitespace inside text literals is spelled as an
+/// escape so that the engine's whitespace folding cannot identify two programs.
+fn key_of(clause: &str, src: &str) -> String {
+    let mut o = String::new();
+    let mut in_str = false;
+    let mut esc = false;
+    for c in src.trim().chars() {
+        if in_str {
+            if esc {
+                esc = false;
+                o.push(c);
+            } else if c == '\\' {
+                esc = true;
+                o.push(c);
+            } else if c == '"' {
+                in_str = false;
+                o.push(c);
+            } else if c == ' ' {
+                o.push_str("\\u{20}");
+            } else {
+                o.push(c);
+            }
+        } else {
+            if c == '"' {
+                in_str = true;
+            }
+            o.push(c);
+        }
+    }
+    format!("{clause}:{o}")
+}
+
+fn excerpt(s: &str, n: usize) -> String {
+    if s.chars().count() <= n {
+        s.to_string()
+    } else {
+        s.chars().take(n).collect::<String>() + " ..."
+    }
+}
+
+/// Everything known about one program after the emit phase.
+struct Planned {
+    src: String,
+    emit: Option<EmitOut>,
+    items: Vec<rustlex::Item>,
+    module: Option<scratch::Module>,
+    /// violations found before compiling: (clause, message)
+    pre: Vec<(&'static str, String)>,
+    rejected: Option<String>,
+}
+
+fn plan(idx: usize, c: &Case) -> Planned {
+    let src = c.prog.to_did();
+    let mut pl = Planned { src: src.clone(), emit: None, items: vec![], module: None, pre: vec![], rejected: None };
+    match run_emit(&src) {
+        Emit::Rejected(e) => pl.rejected = Some(e),
+        Emit::Panic(p) => pl.pre.push(("panic", format!("emit_bindgen panicked: {p}"))),
+        Emit::Ok(e) => {
+            // same input twice => same output (the generator is a function of the program)
+            if let Emit::Ok(e2) = run_emit(&src) {
+                if e2.type_defs != e.type_defs {
+                    pl.pre.push(("panic", "emit_bindgen is not deterministic: two runs give different type_defs".into()));
+                }
+            }
+            let items = rustlex::items(&e.type_defs);
+            // clause: distinct source types never collapse into one Rust item (by name)
+            let mut count: BTreeMap<&str, usize> = BTreeMap::new();
+            for it in &items {
+                *count.entry(it.name.as_str()).or_insert(0) += 1;
+            }
+            let srcm = oracle::source(&c.prog);
+            for (name, n) in &count {
+                if *n > 1 {
+                    let defs: Vec<&String> = srcm.all_defs.iter().filter(|d| oracle::norm(d) == oracle::norm(name)).collect();
+                    pl.pre.push(("collapse", format!("{n} emitted items are all named `{name}` (source definitions with that name after case conversion: {defs:?})")));
+                }
+            }
+            let mut by_norm: BTreeMap<String, Vec<&String>> = BTreeMap::new();
+            for d in &srcm.expected_defs {
+                by_norm.entry(oracle::norm(d)).or_default().push(d);
+            }
+            for (n, defs) in &by_norm {
+                let have: BTreeSet<&str> = items.iter().filter(|it| oracle::norm(&it.name) == *n).map(|it| it.name.as_str()).collect();
+                if have.len() < defs.len() && !have.iter().any(|h| count[h] > 1) {
+                    pl.pre.push(("collapse", format!("definitions {defs:?} are represented by only {} item name(s) {have:?}", have.len())));
+                }
+            }
+            pl.module = Some(module_text(idx, &e, &items));
+            pl.items = items;
+            pl.emit = Some(e);
+        }
+    }
+    pl
+}
+
+#[derive(Default)]
+struct Tally {
+    modules_compiled: u64,
+    modules_failed: u64,
+    items_compared: u64,
+    comparisons: u64,
+    methods_compared: u64,
+}
+
+type DumpRes = Result<oracle::Dumped, String>;
+
+/// Post-build evaluation of one program. Returns (clause, message) findings.
+fn evaluate(c: &Case, pl: &Planned, build: &scratch::BuildResult, idx: usize, tally: &mut Tally) -> Vec<(&'static str, String)> {
+    let mut out: Vec<(&'static str, String)> = vec![];
+    let (Some(e), Some(module)) = (&pl.emit, &pl.module) else { return out };
+    if let Some(errs) = build.failed.get(&idx) {
+        tally.modules_failed += 1;
+        let first = &errs[0];
+        let in_defs = errs.iter().find(|x| x.line >= module.defs_lo && x.line <= module.defs_hi);
+        let in_meth = errs.iter().find(|x| x.line >= module.meth_lo);
+        let dup_only = pl.pre.iter().any(|p| p.0 == "collapse") && errs.iter().all(|x| matches!(x.code.as_deref(), Some("E0428") | Some("E0119") | Some("E0124")));
+        if dup_only {
+            // the duplicate item was already reported as a collapse before compiling
+        } else if let Some(x) = in_defs {
+            out.push(("does-not-compile", format!("type_defs line {}: {}{}", x.line - 1, x.message, x.code.as_ref().map(|c| format!(" [{c}]")).unwrap_or_default())));
+        } else if let Some(x) = in_meth {
+            out.push(("method-differs", format!("a method argument/result type expression of Output.methods does not compile: {}{}", x.message, x.code.as_ref().map(|c| format!(" [{c}]")).unwrap_or_default())));
+        } else {
+            out.push(("does-not-compile", format!("an emitted item cannot be used as a CandidType: {}{} (line {})", first.message, first.code.as_ref().map(|c| format!(" [{c}]")).unwrap_or_default(), first.line)));
+        }
+        return out;
+    }
+    if build.undecided.contains(&idx) {
+        return out;
+    }
+    let Some(lines) = build.lines.get(&idx) else {
+        scratch::machinery(&format!("module m{idx} compiled but printed nothing"));
+    };
+    tally.modules_compiled += 1;
+    let mut items: Vec<(String, DumpRes)> = vec![];
+    let mut margs: BTreeMap<(char, usize, usize), DumpRes> = BTreeMap::new();
+    let mut ended = false;
+    for l in lines {
+        let f: Vec<&str> = l.split('\t').collect();
+        match f.get(1).copied() {
+            Some("I") if f.len() == 5 => items.push((f[2].to_string(), oracle::parse_dump(f[3], f[4]))),
+            Some(k @ ("A" | "R" | "N")) if f.len() == 6 => {
+                margs.insert((k.chars().next().unwrap(), f[2].parse().unwrap_or(0), f[3].parse().unwrap_or(0)), oracle::parse_dump(f[4], f[5]));
+            }
+            Some("END") => ended = true,
+            Some("PANIC") => {
+                let msg = String::from_utf8_lossy(&hex::decode(f.get(2).copied().unwrap_or("")).unwrap_or_default()).to_string();
+                out.push(("panic", format!("computing ty() of the emitted types panicked: {msg}")));
+                return out;
+            }
+            _ => scratch::machinery(&format!("unreadable line from the generated crate: {l}")),
+        }
+    }
+    if !ended {
+        scratch::machinery(&format!("module m{idx}: output without END marker"));
+    }
+    let srcm = oracle::source(&c.prog);
+    let (findings, compared) = oracle::compare_items(&srcm, &items);
+    tally.items_compared += items.len() as u64;
+    tally.comparisons += compared;
+    for f in findings {
+        out.push((f.clause, f.detail));
+    }
+    // methods
+    if let Some(want) = &srcm.methods {
+        let got_names: Vec<&String> = e.methods.iter().map(|m| &m.original_name).collect();
+        let mut w: Vec<&String> = want.iter().map(|m| &m.0).collect();
+        let mut g = got_names.clone();
+        w.sort();
+        g.sort();
+        if w != g {
+            out.push(("method-differs", format!("methods of the source service {w:?}, methods emitted {g:?}")));
+        } else {
+            for (k, m) in e.methods.iter().enumerate() {
+                let (_, wa, wr) = want.iter().find(|x| x.0 == m.original_name).unwrap();
+                tally.methods_compared += 1;
+                let ga: Vec<Option<DumpRes>> = (0..m.args.len()).map(|j| margs.get(&('A', k, j)).cloned()).collect();
+                let gr: Vec<Option<DumpRes>> = (0..m.rets.len()).map(|j| margs.get(&('R', k, j)).cloned()).collect();
+                if let Some(d) = oracle::compare_tys(&srcm, &format!("method {:?} argument", m.original_name), wa, &ga) {
+                    out.push(("method-differs", d));
+                }
+                if let Some(d) = oracle::compare_tys(&srcm, &format!("method {:?} result", m.original_name), wr, &gr) {
+                    out.push(("method-differs", d));
+                }
+            }
+        }
+        match (&srcm.init_args, &e.init_args) {
+            (None, None) => {}
+            (Some(wi), Some(gi)) => {
+                tally.methods_compared += 1;
+                let g: Vec<Option<DumpRes>> = (0..gi.len()).map(|j| margs.get(&('N', 0, j)).cloned()).collect();
+                if let Some(d) = oracle::compare_tys(&srcm, "init argument", wi, &g) {
+                    out.push(("method-differs", d));
+                }
+            }
+            (w, g) => out.push(("method-differs", format!("init args: source has {}, emitted has {}", w.is_some(), g.is_some()))),
+        }
+    } else if !e.methods.is_empty() {
+        out.push(("method-differs", "methods emitted for a program without a service".into()));
+    }
+    out
+}
+
+fn case_json(c: &Case, pl: &Planned, clause: &str, build: Option<&scratch::BuildResult>, idx: usize) -> Value {
+    let mut v = json!({
+        "did": pl.src,
+        "family": c.family,
+        "clause": clause,
+        "type_defs": pl.emit.as_ref().map(|e| excerpt(&e.type_defs, 4000)),
+        "methods": pl.emit.as_ref().map(|e| e.methods.iter().map(|m| json!({"name": m.original_name, "rust_name": m.rust_name, "args": m.args, "rets": m.rets})).collect::<Vec<_>>()),
+    });
+    if let Some(b) = build {
+        if let Some(errs) = b.failed.get(&idx) {
+            v["rustc"] = json!(errs.iter().take(3).map(|e| excerpt(&e.rendered, 1500)).collect::<Vec<_>>());
+        }
+    }
+    v
+}
+
+/// The whole pipeline over a list of cases. `tag` names the generated crate.
+fn pipeline(ctx: &Ctx, cases: &[Case], tag: &str, nbins: usize) -> (Report, Tally, Value) {
+    // phase 1: front end + emit_bindgen + name clauses (parallel; the subject's types are !Send)
+    let planned: Mutex<Vec<Option<Planned>>> = Mutex::new((0..cases.len()).map(|_| None).collect());
+    let mut rep = ctx.par_range("emit", cases.len() as u64, 8, || (), |_, i, rep| {
+        let c = &cases[i as usize];
+        rep.evaluations += 1;
+        rep.transitions += 1;
+        let pl = plan(i as usize, c);
+        planned.lock().unwrap()[i as usize] = Some(pl);
+    });
+    let planned: Vec<Option<Planned>> = planned.into_inner().unwrap();
+    let emit_done = planned.iter().all(|p| p.is_some());
+    // phase 2: the generated crate
+    let modules: Vec<scratch::Module> = planned.iter().flatten().filter_map(|p| p.module.clone()).collect();
+    let mut krate = scratch::Crate::create(tag, &modules, nbins);
+    for (i, p) in planned.iter().enumerate() {
+        if let Some(p) = p {
+            // the program next to its module, for people reading the scratch crate
+            if p.module.is_some() {
+                for (b, mods) in krate.bins.iter().enumerate() {
+                    if mods.contains(&i) {
+                        let _ = std::fs::write(krate.dir.join(format!("src/bin/b{b}/m{i}.did")), &p.src);
+                    }
+                }
+            }
+        }
+    }
+    let build = krate.build_and_run(10);
+    rep.transitions += modules.len() as u64;
+    // phase 3: comparison
+    let mut tally = Tally::default();
+    let mut fam_out: BTreeMap<String, u64> = BTreeMap::new();
+    let mut rejected = 0u64;
+    let mut rejected_samples = vec![];
+    let mut method_name_clashes = 0u64;
+    for (i, c) in cases.iter().enumerate() {
+        let Some(pl) = &planned[i] else { continue };
+        if let Some(r) = &pl.rejected {
+            rejected += 1;
+            if rejected_samples.len() < 5 {
+                rejected_samples.push(json!({"did": pl.src, "error": excerpt(r, 300)}));
+            }
+            rep.outcome(&format!("{}:rejected-by-front-end", c.family));
+            continue;
+        }
+        let mut findings: Vec<(&'static str, String)> = pl.pre.clone();
+        findings.extend(evaluate(c, pl, &build, i, &mut tally));
+        if let Some(e) = &pl.emit {
+            let names: BTreeSet<&String> = e.methods.iter().map(|m| &m.rust_name).collect();
+            if names.len() != e.methods.len() {
+                method_name_clashes += 1;
+            }
+            if !pl.items.is_empty() || !e.methods.is_empty() {
+                rep.nontrivial += 1;
+            }
+            rep.traces_validated += 1;
+        }
+        let class = if findings.is_empty() {
+            if build.undecided.contains(&i) {
+                "undecided".to_string()
+            } else {
+                "ok".to_string()
+            }
+        } else {
+            let cl: BTreeSet<&str> = findings.iter().map(|f| f.0).collect();
+            cl.into_iter().collect::<Vec<_>>().join("+")
+        };
+        *fam_out.entry(format!("{}:{}", c.family, class)).or_insert(0) += 1;
+        rep.outcome(&format!("{}:{}", c.family, class));
+        if findings.is_empty() && rep.samples.len() < 4 && !pl.items.is_empty() {
+            rep.sample(json!({"did": pl.src, "items": pl.items.iter().map(|i| i.name.clone()).collect::<Vec<_>>(), "verdict": "compiled; every item equal to its source type"}));
+        }
+        // one violation per clause and program
+        let mut seen = BTreeSet::new();
+        for (clause, msg) in findings {
+            if seen.insert(clause) {
+                rep.violation(&key_of(clause, &pl.src), format!("[{}] {}", c.family, msg), case_json(c, pl, clause, Some(&build), i));
+            } else {
+                rep.violation_count += 0;
+            }
+        }
+    }
+    rep.level("compile+compare", (tally.modules_compiled + tally.modules_failed) as u64, emit_done && build.undecided.is_empty());
+    if !build.undecided.is_empty() {
+        rep.notes.push(format!("{} modules were not decided: the generated crate still failed after {} rounds", build.undecided.len(), build.rounds));
+    }
+    rep.count("programs", cases.len() as u64);
+    rep.count("programs_rejected_by_front_end", rejected);
+    rep.count("modules_generated", modules.len() as u64);
+    rep.count("modules_compiled_and_run", tally.modules_compiled);
+    rep.count("modules_failing_to_compile", tally.modules_failed);
+    rep.count("items_exported", tally.items_compared);
+    rep.count("type_comparisons", tally.comparisons);
+    rep.count("methods_compared", tally.methods_compared);
+    rep.count("programs_with_colliding_rust_method_names(not a verdict)", method_name_clashes);
+    rep.count("cargo_rounds", build.rounds as u64);
+    rep.transitions += tally.items_compared;
+    let extra = json!({
+        "by_family": fam_out,
+        "build_wall_s": build.build_wall_s,
+        "rejected_samples": rejected_samples,
+        "generated_crate": krate.dir.to_string_lossy(),
+    });
+    (rep, tally, extra)
+}
+
+const RULE: &str = "a program is non-trivial when emit_bindgen produced at least one Rust item or method for it; every such program's module is compiled and executed and each exported ty() is compared with the source by R3 equal";
+
+const ASSUMPTIONS: &[&str] = &[
+    "default binding config (Config::new(Configs::from_str(\"\"))), as in didc bind -t rs and tests/parse_type.rs",
+    "only Output.type_defs is compiled; the ic_cdk call stubs of the template are not (crate absent offline); method argument/result type expressions of Output.methods are compiled and exported through ty() instead",
+    "definitions unreachable from the actor are not required to be emitted (chase_actor is the generator's documented selection); without an actor every definition is required",
+    "an emitted item is related to `its` definition by name up to case, underscores and r# (the only things a case conversion / keyword escape may change); anonymous types are related by type only",
+    "the generated crate depends on candid (default features), serde (derive) and serde_bytes, which is what the emitted text refers to",
+    "method modes and the Rust spelling of method names are not compared (not part of the property); colliding Rust method names are only counted",
+];
+
+fn run(tier: Tier) -> i32 {
+    let ctx = Ctx::new("C18", tier, tier.pick(300, 1500));
+    let cases = scope(tier);
+    let nbins = ctx.threads.clamp(1, 16).min(cases.len().div_ceil(20).max(1));
+    let (rep, _tally, extra) = pipeline(&ctx, &cases, tier.name(), nbins);
+    finish(&ctx, rep, RULE, ASSUMPTIONS, extra)
+}
+
+// ---------------------------------------------------------------------------------------
+// replay
+
+fn ast_to_prog(ast: &candid_parser::IDLProg) -> Option<Prog> {
+    use candid::types::{FuncMode, Label};
+    use candid_parser::syntax::{Dec, IDLType, PrimType};
+    use refmodel::ty::{Mode, Prim};
+    fn lab(l: &Label) -> PLabel {
+        match l {
+            Label::Id(n) | Label::Unnamed(n) => PLabel::Id(*n),
+            Label::Named(s) => PLabel::Named(s.clone()),
+        }
+    }
+    fn ty(t: &IDLType) -> Option<PTy> {
+        Some(match t {
+            IDLType::PrimT(p) => PTy::Prim(match p {
+                PrimType::Nat => Prim::Nat,
+                PrimType::Nat8 => Prim::Nat8,
+                PrimType::Nat16 => Prim::Nat16,
+                PrimType::Nat32 => Prim::Nat32,
+                PrimType::Nat64 => Prim::Nat64,
+                PrimType::Int => Prim::Int,
+                PrimType::Int8 => Prim::Int8,
+                PrimType::Int16 => Prim::Int16,
+                PrimType::Int32 => Prim::Int32,
+                PrimType::Int64 => Prim::Int64,
+                PrimType::Float32 => Prim::Float32,
+                PrimType::Float64 => Prim::Float64,
+                PrimType::Bool => Prim::Bool,
+                PrimType::Text => Prim::Text,
+                PrimType::Null => Prim::Null,
+                PrimType::Reserved => Prim::Reserved,
+                PrimType::Empty => Prim::Empty,
+            }),
+            IDLType::PrincipalT => PTy::Prim(Prim::Principal),
+            IDLType::VarT(v) => PTy::Var(v.clone()),
+            IDLType::OptT(t) => PTy::opt(ty(t)?),
+            IDLType::VecT(t) => PTy::vec(ty(t)?),
+            IDLType::RecordT(fs) => PTy::Record(fs.iter().map(|f| Some((lab(&f.label), ty(&f.typ)?))).collect::<Option<_>>()?),
+            IDLType::VariantT(fs) => PTy::Variant(fs.iter().map(|f| Some((lab(&f.label), ty(&f.typ)?))).collect::<Option<_>>()?),
+            IDLType::FuncT(f) => PTy::Func(PFunc {
+                args: f.args.iter().map(|a| Some((None, ty(&a.typ)?))).collect::<Option<_>>()?,
+                rets: f.rets.iter().map(|a| Some((None, ty(&a.typ)?))).collect::<Option<_>>()?,
+                modes: f
+                    .modes
+                    .iter()
+                    .map(|m| match m {
+                        FuncMode::Query => Mode::Query,
+                        FuncMode::Oneway => Mode::Oneway,
+                        FuncMode::CompositeQuery => Mode::CompositeQuery,
+                    })
+                    .collect(),
+            }),
+            IDLType::ServT(ms) => PTy::Service(ms.iter().map(|b| Some((b.id.clone(), ty(&b.typ)?))).collect::<Option<_>>()?),
+            IDLType::ClassT(..) => return None,
+        })
+    }
+    let mut defs = vec![];
+    for d in &ast.decs {
+        match d {
+            Dec::TypD(b) => defs.push((b.id.clone(), ty(&b.typ)?)),
+            _ => return None,
+        }
+    }
+    let actor = match &ast.actor {
+        None => None,
+        Some(a) => Some(match &a.typ {
+            IDLType::ClassT(args, t) => PActor::Class(args.iter().map(|a| Some((None, ty(&a.typ)?))).collect::<Option<_>>()?, ty(t)?),
+            t => PActor::Service(ty(t)?),
+        }),
+    };
+    Some(Prog { defs, actor, actor_name: None })
+}
+
+fn replay(path: &str) -> i32 {
+    let s = std::fs::read_to_string(path).unwrap_or_else(|e| scratch::machinery(&format!("replay file {path}: {e}")));
+    let v: Value = serde_json::from_str(&s).unwrap_or_else(|e| scratch::machinery(&format!("replay json: {e}")));
+    let case = if v["case"].is_object() { &v["case"] } else { &v };
+    let Some(did) = case["did"].as_str() else { scratch::machinery("replay file has no case.did") };
+    // the recorded program, from the trusted generator if it is one of the scope's programs
+    let found = scope(Tier::Thorough).into_iter().find(|c| c.prog.to_did() == did);
+    let c = match found {
+        Some(c) => c,
+        None => {
+            let ast: candid_parser::IDLProg = did.parse().unwrap_or_else(|e| scratch::machinery(&format!("recorded program does not parse: {e}")));
+            let prog = ast_to_prog(&ast).unwrap_or_else(|| scratch::machinery("recorded program uses imports"));
+            Case { family: "replay".into(), prog }
+        }
+    };
+    let ctx = Ctx::new("C18", Tier::Quick, 600);
+    // the source text that is run is the recorded one
+    let cases = vec![c];
+    let tag = format!("replay{}", std::process::id());
+    let (rep, _t, _e) = pipeline_with_src(&ctx, &cases, did, &tag);
+    let _ = std::fs::remove_dir_all(std::path::Path::new(scratch::WORK).join(&tag));
+    let want = v["key"].as_str();
+    let mut hit = false;
+    for vio in &rep.violations {
+        println!("REPRODUCED {} :: {}", vio.key, vio.msg);
+        if want.is_none() || want == Some(vio.key.as_str()) {
+            hit = true;
+        }
+    }
+    if rep.violations.is_empty() {
+        println!("not reproduced: the emitted binding compiles and every exported type equals its source type");
+        0
+    } else {
+        if !hit {
+            println!("note: the recorded key {:?} was not among the reproduced ones", want);
+        }
+        1
+    }
+}
+
+/// Single-case pipeline used by replay; checks that the case's printed form is the recorded text.
+fn pipeline_with_src(ctx: &Ctx, cases: &[Case], did: &str, tag: &str) -> (Report, Tally, Value) {
+    if cases[0].prog.to_did() != did {
+        // a hand-written .did: its model is the parsed one, the text that is run is the printer's
+        eprintln!("note: replaying the program as re-printed by the harness:\n{}", cases[0].prog.to_did());
+    }
+    pipeline(ctx, cases, tag, 1)
+}
+
 fn main() {
     install_quiet_panic_hook();
-    let (tier, replay, _rest) = parse_args();
-    if let Some(path) = replay {
-        let _ = path;
-        eprintln!("replay not implemented yet");
-        std::process::exit(2);
+    let (tier, replay_path, rest) = parse_args();
+    if rest.iter().any(|a| a == "--prepare") {
+        std::process::exit(scratch::prepare());
     }
-    let ctx = Ctx::new("C18", tier, tier.pick(120, 1200));
-    let mut rep = Report::new();
-    let _ = catch(|| ());
-    rep.sample(json!("skeleton"));
-    let code = finish(&ctx, rep, "skeleton", &[], json!({}));
-    std::process::exit(code);
+    if let Some(i) = rest.iter().position(|a| a == "--show") {
+        // debugging aid: print what the generator emits for a .did file
+        let src = std::fs::read_to_string(&rest[i + 1]).expect("file");
+        match run_emit(&src) {
+            Emit::Ok(e) => {
+                println!("{}", e.type_defs);
+                for m in e.methods {
+                    println!("// method {:?} as {} : ({}) -> ({})", m.original_name, m.rust_name, m.args.join(", "), m.rets.join(", "));
+                }
+                if let Some(i) = e.init_args {
+                    println!("// init ({})", i.join(", "));
+                }
+            }
+            Emit::Rejected(e) => println!("rejected: {e}"),
+            Emit::Panic(p) => println!("panic: {p}"),
+        }
+        return;
+    }
+    if let Some(path) = replay_path {
+        std::process::exit(replay(&path));
+    }
+    std::process::exit(run(tier));
 }
